@@ -95,7 +95,7 @@ def cases(tier, seed, info):
                 items.append(rng.choice(alphabet))
             else:
                 items.append(dict(cache='other', mod=rng.choice(['damaged', 'e500', 'm2c00', 'plain', 'badheader',
-                                                                 'bmcproc', 'lp', 'hidden', 'regmsg', 'regmsg']), beh='-',
+                                                                 'bmcproc', 'lp', 'hidden', 'regmsg', 'regmsg', 'ilog', 'ilog']), beh='-',
                                   plugins=rng.random() < .7))
         out.append(dict(kind='history', origin='random', seed=seed * 17 + k + 777, items=items))
     info['random_histories'] = m
@@ -146,6 +146,45 @@ def realise(rng, item, serial):
             u = genpel.hdr(rng, 'UD')
             u.update(kind='UD', comp=[0x2C, 0x00], sub=rng.choice([72, 73, 84]), ver=rng.choice([1, 2]),
                      payload=genpel.rbytes(rng, 32))
+            secs = [u]
+        elif mod == 'ilog':
+            # an I/O drawer ILOG made of entries the shipped table knows - among them patterns that overlap
+            # (a specific line in front of a generic one): which line wins must not depend on earlier decodes
+            from . import c14
+            from .. import drawer
+            creator = 'M'
+            ver = rng.choice([1, 2])
+            table = drawer.read_pte_table(os.path.join(drawer.io_dir(), ['mex_pte.h', 'nimitz_pte.h'][ver - 1]))[0]
+            def fits(pat, hex8):
+                return len(pat) == 8 and all(c == '*' or c.upper() == d for c, d in zip(pat, hex8))
+            # generic lines that also match a specific line standing in front of them with another text
+            overlaps = {}
+            for j, g in enumerate(table):
+                if '*' in g['pattern'] and len(g['pattern']) == 8:
+                    sp = [i for i in range(j) if '*' not in table[i]['pattern'] and len(table[i]['pattern']) == 8
+                          and fits(g['pattern'], table[i]['pattern'].upper()) and table[i]['msg'] != g['msg']]
+                    if sp:
+                        overlaps[j] = sp
+            if overlaps and rng.random() < .7:
+                j = rng.choice(sorted(overlaps))
+                ptes = [int(table[i]['pattern'], 16) for i in rng.sample(overlaps[j], min(len(overlaps[j]), rng.randrange(1, 4)))]
+                only_generic = None
+                for _ in range(50):
+                    cand = c14.fill(rng, table[j]['pattern'], 'rand')
+                    if not any(fits(table[i]['pattern'], '%08X' % cand) for i in range(j)):
+                        only_generic = cand
+                        break
+                if only_generic is not None:
+                    ptes.append(only_generic)            # the LAST entry is one only the generic line matches
+                payload = []
+                for n, pte in enumerate(ptes):
+                    payload += c14.entry_bytes(rng.choice(c14.TS), (serial * 16 + n) & 0xFFFF,
+                                               pte | (0x00040000 if rng.random() < .3 else 0))
+            else:
+                k0 = rng.randrange(len(table))
+                payload = c14.data_for(rng, table, max(0, k0 - rng.randrange(0, 6)), k0 + 1)[: 8 * rng.randrange(2, 14)]
+            u = genpel.hdr(rng, 'UD')
+            u.update(kind='UD', comp=[0x2C, 0x00], sub=73, ver=ver, payload=payload)
             secs = [u]
         elif mod == 'bmcproc':
             s = genpel.gen_src(rng, 'PS', ncallouts=1, shapes=[dict(fru='m', pce=None, mru=None, loc=0)], kind='BD')
@@ -267,7 +306,7 @@ def _dir(case):
     alphabet = [dict(cache=c, mod=mm, beh=b, plugins=True) for c in ('ud', 'src', 'co', 'osrc') for mm in ('m1', 'm2') for b in BEHSEL]
     files = []
     for k in range(case['n']):
-        it = rng.choice(alphabet) if k % 2 else dict(cache='other', mod=rng.choice(['e500', 'plain', 'lp', 'regmsg']), beh='-')
+        it = rng.choice(alphabet) if k % 2 else dict(cache='other', mod=rng.choice(['e500', 'plain', 'lp', 'regmsg', 'ilog']), beh='-')
         data, sent = realise(rng, it, k)
         eid = sent[0]
         name = '%02d_%s' % (k, eid)
